@@ -482,7 +482,7 @@ Options                 Shorthand  Value         Action
  -outputs               -out       <int>         set the number of outputs
  -depth                 -dt        <int>         set the depth of the grid (e.g. levels)
  -type                  -tt        <type>        set the type of the grid
- -conformaltype         -tt        <type>        set the type of the transformation
+ -conformaltype         -ct        <type>        set the type of the transformation
  -onedim                -1d        <rule>        set the one dimensional rule
  -order                 -or        <int>         set the order for local polynomial and wavelet basis
  -alpha                            <float>       the alpha parameter for Gegenbauer/Jacobi/Laguerre/Hermite quadrature
@@ -498,7 +498,7 @@ Options                 Shorthand  Value         Action
  -outputfile            -of        <filename>    set the name for the output file
  -anisotropyfile        -af        <filename>    set the anisotropic weights
  -transformfile         -tf        <filename>    set the transformation of the domain
- -conformalfile         -tf        <filename>    set the conformal transformation of the domain
+ -conformalfile                    <filename>    set the conformal transformation of the domain
  -levellimitsfile       -lf        <filename>    set the limits for the levels
  -customfile            -cf        <filename>    set the file with the custom-tabulated rule
  -gpuid                            <int>         set the gpu to use for evaluations
